@@ -11,6 +11,7 @@ import (
 	"os"
 	"os/exec"
 	"reflect"
+	"runtime/debug"
 	"strconv"
 	"strings"
 	"time"
@@ -265,6 +266,43 @@ var cyclic = []struct {
 	{"recursive map type containing itself", func() any { m := recMap{}; m["k"] = m; return m }},
 	{"embedded pointer to itself", func() any { a := &cycEmbed{X: 1}; a.cycEmbed = a; return a }},
 	{"*any pointing to itself", func() any { var a any; a = &a; return a }},
+	// rho shapes: a long non-cyclic lead (longer than the depth at which cycle detection starts) into a ring
+	{"1500 pointer hops leading into a pointer ring of length 2", func() any {
+		a, b := &cycPtr{V: 1}, &cycPtr{V: 2}
+		a.Next, b.Next = b, a
+		head := a
+		for i := 0; i < 1500; i++ {
+			head = &cycPtr{V: i, Next: head}
+		}
+		return head
+	}},
+	{"999 pointer hops leading into a pointer ring of length 3", func() any {
+		a, b, d := &cycPtr{V: 1}, &cycPtr{V: 2}, &cycPtr{V: 3}
+		a.Next, b.Next, d.Next = b, d, a
+		head := a
+		for i := 0; i < 999; i++ {
+			head = &cycPtr{V: i, Next: head}
+		}
+		return head
+	}},
+	{"1200 nested []any leading into a []any containing itself", func() any {
+		s := []any{1, nil}
+		s[1] = s
+		var v any = s
+		for i := 0; i < 1200; i++ {
+			v = []any{v}
+		}
+		return v
+	}},
+	{"1100 nested maps leading into a map -> slice -> map ring", func() any {
+		m := map[string]any{}
+		m["l"] = []any{m}
+		var v any = m
+		for i := 0; i < 1100; i++ {
+			v = map[string]any{"k": v}
+		}
+		return v
+	}},
 }
 
 func cycles(c *explore.Ctx) {
@@ -335,6 +373,9 @@ func Child(args []string) {
 		v := nestedValue(n(1), n(2))
 		runEncode(n(3), v)
 	case "dec":
+		// a quarter of the default 1 GB stack: recursion that grows with the nesting of the document without
+		// bound shows at a quarter of the depth (a decoder honouring its 10,000 level limit needs a few MB)
+		debug.SetMaxStack(256 << 20)
 		ladderTargets[n(1)].run(nestedDoc(n(2), n(3), n(4) == 1))
 	}
 }
@@ -588,7 +629,7 @@ func Spec() *explore.Spec {
 	return &explore.Spec{
 		ID: "C06",
 		Families: []*explore.Family{
-			{Name: "cycles", ShardDepth: 2, HangSeconds: 60, Body: cycles, Doc: "16 cyclic values (pointer cycles of length 1-3, slices / maps / interfaces / recursive slice and map types / embedded pointers containing themselves) x {as is, behind *any, inside []any, inside a map, inside a struct field} x {Marshal, Append, Encoder, MarshalIndent}: an error is returned"},
+			{Name: "cycles", ShardDepth: 2, HangSeconds: 60, Body: cycles, Doc: "20 cyclic values (pointer cycles of length 1-3, rings reached through 999-1500 non-cyclic levels, slices / maps / interfaces / recursive slice and map types / embedded pointers containing themselves) x {as is, behind *any, inside []any, inside a map, inside a struct field} x {Marshal, Append, Encoder, MarshalIndent}: an error is returned"},
 			{Name: "layouts-encode", ShardDepth: 1, Body: layoutsEncode, Doc: "every type shape of C01 plus pointer-shaped leaves nested 1-3 levels in single-field structs and one-element arrays x boundary values x {by value, by pointer, inside []any, as map value, in a typed slice, in a typed map} x {Marshal, Encoder with indent, Append(0)}"},
 			{Name: "layouts-decode", ShardDepth: 1, Body: layoutsDecode, Doc: "the same type shapes x (34 generic documents incl. mismatching, truncated and malformed ones + the encodings of the type's own boundary values) x {Unmarshal into *T and **T, Decoder with UseNumber, Parse with ZeroCopy|DisallowUnknownFields|DontMatchCaseInsensitiveStructFields}"},
 			{Name: "corrupt-typed", ShardDepth: 1, Body: corruptTyped, Doc: "typed documents (encodings of boundary values) truncated at every offset and with every byte replaced by each of 14 structural bytes, decoded into their own type"},
